@@ -10,4 +10,5 @@ var vEntries = map[string]interface{}{
 	"VAssign": VAssign,
 	"VScaleDown": VScaleDown,
 	"VLemmaSwr": VLemmaSwr,
+	"VTwoReplicas": VTwoReplicas,
 }
